@@ -70,7 +70,11 @@ pub fn worker_main(a: WorkerArgs) {
         .stack_size(2 * 1024 * 1024)
         .spawn(move || worker_body(a))
         .expect("spawn sim thread");
-    let _ = h.join();
+    if h.join().is_err() {
+        let p = crate::eval::GLOBAL_LAST_PANIC.lock().ok().and_then(|g| g.clone());
+        eprintln!("harness error: simulator thread panicked: {:?}", p);
+        std::process::exit(3);
+    }
 }
 
 fn worker_body(a: WorkerArgs) {
@@ -103,7 +107,8 @@ fn worker_body(a: WorkerArgs) {
         progress.set(u, u64::MAX, 0);
         units_done += 1;
         u += a.stride;
-        if units_done % 16 == 0 || last_emit.elapsed().as_millis() > 500 || u >= a.to {
+        let every = if a.prop == "C09" || a.prop == "C19" { 1 } else { 4 };
+        if units_done % every == 0 || last_emit.elapsed().as_millis() > 500 || u >= a.to {
             emit_stats(&mut judge, &a.base, units_done);
             units_done = 0;
             last_emit = std::time::Instant::now();
